@@ -7,6 +7,10 @@ import Bptk.Core.C19
   rt <0|1>                                 session after store/unstore (1 = compressed)
   cs / cr                                  compressed settings / results as written by the adapter
   res <0|1>                                session results served from the restored session
+  new / cfgs <0|1> / flush / endsession / saveall / saved
+                                           instance-level machine: `begin` starts a (further) session on the instance, `flush`
+                                           ends one step-advancing request (the steps since the last flush), `saved` prints what
+                                           the state file holds (cfgs: saveAfterEveryStepRequest)
   pk <0|1> <i0,i1,...|->                   the settings part as written by the pickler when step n logged the settings
                                            object with identity i_n: which entries are `py/id` back-references and to
                                            what; rt = unpickler restores it; plain = what a plain JSON reader would do
@@ -101,8 +105,8 @@ def pickleLine (compress : Bool) (ident : Nat → Nat) (s : Session) : String :=
   let st := store compress s
   let j := settingsJ ident st
   let e : Envelope := { id := 0, timeout := 0, step := s.step, stored := st }
-  let rt := if (pickleCodec ⟨true⟩ ident).dec ((pickleCodec ⟨true⟩ ident).enc e) == some e then "ok" else "FAIL"
-  let pl := match (pickleCodec ⟨false⟩ ident).dec ((pickleCodec ⟨false⟩ ident).enc e) with
+  let rt := if (pickleCodec ⟨true, true⟩ ident).dec ((pickleCodec ⟨true, true⟩ ident).enc e) == some e then "ok" else "FAIL"
+  let pl := match (pickleCodec ⟨false, true⟩ ident).dec ((pickleCodec ⟨false, true⟩ ident).enc e) with
     | some e' => if e' == e then "same" else "differs"
     | none => "differs"
   s!"{fmtPickle compress j};rt={rt};plain={pl}"
@@ -130,11 +134,50 @@ def stepLine (s : Option Session) (line : String) : Option Session × String :=
   | ["res", b], some s => (some s, fmtRes (sessionResults (unstore (store (b == "1") s))))
   | _, _ => (s, "bad-op")
 
-partial def loop (h : IO.FS.Stream) (s : Option Session) : IO Unit := do
+/-- the instance-level machine (several sessions, when the file is written) runs alongside -/
+structure Inst where
+  cfg : Cfg
+  ist : IState
+  pending : List StepOp
+
+def fmtFile (st : IState) : String :=
+  match st.file with
+  | none => "file=none"
+  | some f => s!"file:paths={",".intercalate (f.spec.paths.map toString)};step={f.step};n={f.settingsLog.length}"
+
+def instLine (i : Inst) (line : String) : Inst × Option String :=
+  match line.trimAscii.toString.splitOn " " with
+  | ["new"] => ({ i with ist := IState.init, pending := [] }, some "ok")
+  | ["cfgs", b] => ({ i with cfg := { i.cfg with saveAfterEveryStepRequest := b == "1" } }, some "ok")
+  | ["begin", ps, a, d, z] =>
+    match parseNats ps, a.toInt?, d.toInt?, z.toInt? with
+    | some ps, some a, some d, some z =>
+      ({ i with ist := stepReq i.cfg i.ist (.beginSession { paths := ps, start := a, dt := d, stop := z }), pending := [] }, none)
+    | _, _, _, _ => (i, none)
+  | ["step", st, vs] =>
+    let settings : Option (Option Row) := if st == "none" then some none else (parsePairs st).map some
+    match settings, parsePairs vs with
+    | some settings, some vals =>
+      ({ i with pending := i.pending ++ [{ settings := settings, val := fun p => (lookup p vals).getD "MISSING" }] }, none)
+    | _, _ => (i, none)
+  | ["flush"] => ({ i with ist := stepReq i.cfg i.ist (.steps i.pending), pending := [] }, some "ok")     -- end of one step-advancing request
+  | ["endsession"] => ({ i with ist := stepReq i.cfg i.ist .endSession, pending := [] }, some "ok")
+  | ["saveall"] => ({ i with ist := { i.ist with file := i.ist.session } }, some "ok")                    -- GET /save-state
+  | ["saved"] => (i, some (fmtFile i.ist))
+  | _ => (i, none)
+
+partial def loop (h : IO.FS.Stream) (s : Option Session) (i : Inst) : IO Unit := do
   let line ← h.getLine
   if line.isEmpty then return ()
-  let (s', out) := stepLine s line
-  IO.println out
-  loop h s'
+  let (i', own) := instLine i line
+  match own with
+  | some out =>
+    IO.println out
+    loop h s i'
+  | none =>
+    let (s', out) := stepLine s line
+    IO.println out
+    loop h s' i'
 
-def main : IO Unit := do loop (← IO.getStdin) none
+def main : IO Unit := do
+  loop (← IO.getStdin) none { cfg := { decoderResolvesRefs := true, saveAfterEveryStepRequest := true }, ist := IState.init, pending := [] }
